@@ -120,6 +120,10 @@ Next ==
                              THEN /\ CheckFields(1, e.writer, v, e.in, e.out, l)
                                   \* the buffer width carried by the record is also the width of the loaded buffer
                                   /\ Check(WidthCarried(v, e.in.width) => e.buf_width = e.in.width, "C11", "Meta", l, [field |-> "bufwidth", writer |-> e.writer, variant |-> v])
+                                  \* a font name the record carries and that names one of the engine's SAUCE fonts is the font of the loaded
+                                  \* buffer (formats that do not embed a font of their own): the name is metadata that must take effect
+                                  /\ Check(("font_named" \notin DOMAIN e) \/ e.font_named = 0 \/ e.writer \notin {"ans", "asc", "bin"} \/ e.font0 = e.font_named,
+                                           "C11", "Meta", l, [field |-> "font-applied", writer |-> e.writer, variant |-> v])
                                   /\ Expect(e.out.hdr = sp.hdr \/ e.writer = "icy", "loaded-hdr", l, [writer |-> e.writer])
                                   /\ Expect(/\ e.out.title = PadTo(ReadField(PadTo(e.in.title, 35, Blank), Blank), 35, Blank)
                                             /\ e.out.author = PadTo(ReadField(PadTo(e.in.author, 20, Blank), Blank), 20, Blank)
